@@ -35,6 +35,12 @@ impl AdjacencyMatrix {
         forall|i: int| 0 <= i < it1.index() ==> (#[trigger] it1.seq()[i]).0 < order && it1.seq()[i].1 < order && it1.seq()[i].0 != it1.seq()[i].1,
         forall|i: int| 0 <= i < it1.index() ==> h.has((#[trigger] it1.seq()[i]).0 as int, it1.seq()[i].1 as int),
         forall|a: int, b: int| #![trigger h.has(a, b)] h.has(a, b) ==> exists|i: int| 0 <= i < it1.index() && it1.seq()[i] == (a as usize, b as usize),
+    @panic 1
+        assert(!dg_valid(digraph));
+    @panic 2
+        assert(!dg_valid(digraph)) by { assert((u, v) == it1.seq()[it1.index()]); assert(digraph.has(u as int, v as int)); }
+    @panic 3
+        assert(!dg_valid(digraph)) by { assert((u, v) == it1.seq()[it1.index()]); assert(digraph.has(u as int, v as int)); }
     @*/
 
     /*@fn impl=AdjacencyMatrix trait=From implhas='impl<I> From<I>' name=from rename=from_arcs subst=I=>Vec<(usize,usize)> drop=I dropwhere=I
@@ -59,7 +65,18 @@ impl AdjacencyMatrix {
         digraph.order == order,
         forall|i: int| 0 <= i < iter@.len() ==> (#[trigger] iter@[i]).0 < order && iter@[i].1 < order && iter@[i].0 != iter@[i].1,
         forall|a: int, b: int| #![trigger digraph.has(a, b)] digraph.has(a, b) == (is_id(a) && is_id(b) && exists|i: int| 0 <= i < it2.index() && it2.seq()[i] == (a as usize, b as usize)),
+    @panic 1
+        assert(has_self_loop(iter@)) by { assert(iter@[it1.index()] == (u, v)); }
+    @panic 2
+        assert(iter@.len() == 0);
+    @before `digraph.add_arc(u, v);`
+        // the documented panics of add_arc cannot occur here
+        assert(u != v && u < order && v < order) by { assert(iter@[it2.index()] == (u, v)); }
     @*/
+}
+
+spec fn has_self_loop(s: Seq<(usize, usize)>) -> bool {
+    exists|i: int| 0 <= i < s.len() && (#[trigger] s[i]).0 == s[i].1
 }
 
 /// C16, building from an iterator of arcs: no self-loop in the input, `order` exceeds every id and is some id + 1
@@ -67,45 +84,6 @@ impl AdjacencyMatrix {
 spec fn arcs_input_ok(s: Seq<(usize, usize)>, order: int) -> bool {
     &&& forall|i: int| 0 <= i < s.len() ==> (#[trigger] s[i]).0 != s[i].1 && s[i].0 < order && s[i].1 < order
     &&& s.len() > 0 ==> exists|i: int| 0 <= i < s.len() && ((#[trigger] s[i]).0 + 1 == order || s[i].1 + 1 == order)
-}
-
-//@file src/repr/edge_list/mod.rs
-impl EdgeList {
-    /*@fn impl=EdgeList trait=From name=from rename=from_dg macro=impl_from_arcs_order macroarg=Dg
-    ensures
-        r.wf(),
-        r.ord() == digraph.ord(),
-        forall|a: int, b: int| #![trigger r.has(a, b)] is_id(a) && is_id(b) ==> r.has(a, b) == digraph.has(a, b),
-        dg_valid(digraph),
-    @loop 1
-    invariant
-        it1.iter.obeys_prophetic_iter_laws(),
-        it1.iter.decrease() is Some,
-        arcs_of(digraph, it1.seq()),
-        h.wf(),
-        h.ord() == order,
-        order == digraph.ord(),
-        forall|i: int| 0 <= i < it1.index() ==> (#[trigger] it1.seq()[i]).0 < order && it1.seq()[i].1 < order && it1.seq()[i].0 != it1.seq()[i].1,
-        forall|i: int| 0 <= i < it1.index() ==> h.has((#[trigger] it1.seq()[i]).0 as int, it1.seq()[i].1 as int),
-        forall|a: int, b: int| #![trigger h.has(a, b)] h.has(a, b) ==> exists|i: int| 0 <= i < it1.index() && it1.seq()[i] == (a as usize, b as usize),
-    @*/
-
-    // the same function as in units/edge_list_core.rs, here with the full C16 clause (order = largest id + 1, or 1 for the
-    // empty input, which this representation documents as allowed)
-    /*@fn impl=EdgeList trait=From implhas='impl<I> From<I>' name=from rename=from_arcs subst=I=>Vec<(usize,usize)> drop=I dropwhere=I
-    ensures
-        r.wf(),
-        arcs_input_ok(iter@, r.ord()),
-        iter@.len() == 0 ==> r.ord() == 1,
-        forall|a: int, b: int| #![trigger r.has(a, b)] r.has(a, b) == (is_id(a) && is_id(b) && iter@.contains((a as usize, b as usize))),
-    @loop 1
-    invariant
-        it1.seq() == iter@,
-        forall|i: int| 0 <= i < it1.index() ==> (#[trigger] it1.seq()[i]).0 <= order && it1.seq()[i].1 <= order && it1.seq()[i].0 != it1.seq()[i].1,
-        it1.index() == 0 ==> order == 0,
-        it1.index() > 0 ==> exists|i: int| 0 <= i < it1.index() && ((#[trigger] it1.seq()[i]).0 == order || it1.seq()[i].1 == order),
-        forall|p: (usize, usize)| #[trigger] arcs@.contains(p) == exists|i: int| 0 <= i < it1.index() && it1.seq()[i] == p,
-    @*/
 }
 
 // ---- C16: every round trip is the identity ----
@@ -147,35 +125,7 @@ proof fn lemma_round_trip_matrix(m0: AdjacencyMatrix, d0: Dg, d1: Dg, m2: Adjace
     }
 }
 
-proof fn lemma_round_trip_edge(e0: EdgeList, d0: Dg, d1: Dg, e2: EdgeList)
-    requires
-        e0.wf(),
-        dg_stands_for(d0, e0.ord(), |a: int, b: int| e0.has(a, b)),
-        dg_same(d1, d0),
-        // postcondition of EdgeList::from_dg(d1)
-        e2.wf(),
-        e2.ord() == d1.ord(),
-        forall|a: int, b: int| #![trigger e2.has(a, b)] is_id(a) && is_id(b) ==> e2.has(a, b) == d1.has(a, b),
-    ensures
-        e2.ord() == e0.ord(),
-        forall|a: int, b: int| e2.has(a, b) == e0.has(a, b),
-        // identity on the representation itself
-        e2.order == e0.order,
-        e2.arcs@ == e0.arcs@,
-{
-    assert forall|a: int, b: int| e2.has(a, b) == e0.has(a, b) by {
-        if is_id(a) && is_id(b) {
-            assert(d1.has(a, b) == d0.has(a, b));
-            assert(d0.has(a, b) == (|a: int, b: int| e0.has(a, b))(a, b));
-        }
-    }
-    lemma_edge_canonical(e2, e0);
-}
-
-// ---- AdjacencyList side. Its own module: list_core.inc.rs and edge_list_core.inc.rs each carry a module-level
-// `broadcast use` and Verus allows one per module ----
-mod list_side {
-use super::*;
+// ---- AdjacencyList side ----
 //@import units/inc/list_core.inc.rs
 
 //@file src/repr/adjacency_list/mod.rs
@@ -300,6 +250,11 @@ spec fn list_arcs_step(s: ArcsIterator, t: ArcsIterator, r: Option<(usize, usize
     &&& r is None ==> forall|a: int, b: int| !s.pending(a, b) && !t.pending(a, b)
 }
 
+/// every row only names other vertices of V = 0..rows.len()
+spec fn rows_valid(rows: Seq<BTreeSet<usize>>) -> bool {
+    forall|i: int, x: usize| 0 <= i < rows.len() && #[trigger] rows[i]@.contains(x) ==> x < rows.len() && x != i
+}
+
 /// C16, building from an iterator of out-neighbour sets: the rows are kept as given
 spec fn rows_kept(g: AdjacencyList, rows: Seq<BTreeSet<usize>>) -> bool {
     &&& g.arcs@.len() == rows.len()
@@ -312,18 +267,25 @@ impl AdjacencyList {
         r.wf(),
         rows_kept(r, iter@),
         iter@.len() > 0,
-        forall|i: int, x: usize| 0 <= i < iter@.len() && #[trigger] iter@[i]@.contains(x) ==> x < iter@.len() && x != i,
+        rows_valid(iter@),
     @manual `for (u, v) in digraph.arcs()` => `let mut arcs_it = ArcsIterator { arcs: &digraph.arcs, u: 0, inner: None }; while let Some((u, v)) = arcs_it.next()` :: E8b (iterinline) needs the iterator-returning method to be `Ctor(self)`; AdjacencyList::arcs is the struct literal `ArcsIterator { arcs: &self.arcs, u: 0, inner: None }`, inlined here by hand
     @loop 1
     invariant
         arcs_it.inv(),
         arcs_it.arcs@ == digraph.arcs@,
         order == digraph.arcs@.len(),
+        rows_kept(digraph, iter@),
         forall|a: int, b: int| #![trigger digraph.has(a, b)] digraph.has(a, b) && !arcs_it.pending(a, b) ==> b < order && a != b,
     ensures
         forall|a: int, b: int| !arcs_it.pending(a, b),
     decreases
         arcs_it.rows_left(), arcs_it.row_left(),
+    @panic 1
+        assert(iter@.len() == 0);
+    @panic 2
+        assert(!rows_valid(iter@)) by { assert(iter@[u as int]@.contains(v)); }
+    @panic 3
+        assert(!rows_valid(iter@)) by { assert(iter@[u as int]@.contains(v)); }
     @fn_end
         proof { lemma_list_wf_has(digraph); }
     @*/
@@ -353,6 +315,12 @@ impl AdjacencyList {
         forall|i: int| 0 <= i < it1.index() ==> (#[trigger] it1.seq()[i]).0 < order && it1.seq()[i].1 < order && it1.seq()[i].0 != it1.seq()[i].1,
         forall|i: int| 0 <= i < it1.index() ==> h.has((#[trigger] it1.seq()[i]).0 as int, it1.seq()[i].1 as int),
         forall|a: int, b: int| #![trigger h.has(a, b)] h.has(a, b) ==> exists|i: int| 0 <= i < it1.index() && it1.seq()[i] == (a as usize, b as usize),
+    @panic 1
+        assert(!dg_valid(digraph));
+    @panic 2
+        assert(!dg_valid(digraph)) by { assert((u, v) == it1.seq()[it1.index()]); assert(digraph.has(u as int, v as int)); }
+    @panic 3
+        assert(!dg_valid(digraph)) by { assert((u, v) == it1.seq()[it1.index()]); assert(digraph.has(u as int, v as int)); }
     @*/
 }
 
@@ -376,7 +344,88 @@ proof fn lemma_round_trip_list(l0: AdjacencyList, d0: Dg, d1: Dg, l2: AdjacencyL
             assert(d1.has(a, b) == d0.has(a, b));
             assert(d0.has(a, b) == (|a: int, b: int| l0.has(a, b))(a, b));
         }
+        assert(l0.arcs@.len() == l0.arcs.len() && l2.arcs@.len() == l2.arcs.len());
     }
     lemma_list_canonical(l2, l0);
 }
-} // mod list_side
+
+// ---- EdgeList side. Its own module: edge_list_core.inc.rs and list_core.inc.rs each carry a module-level
+// `broadcast use` and Verus allows one per module ----
+mod edge_side {
+use super::*;
+//@import units/inc/edge_list_core.inc.rs
+
+//@file src/repr/edge_list/mod.rs
+impl EdgeList {
+    /*@fn impl=EdgeList trait=From name=from rename=from_dg macro=impl_from_arcs_order macroarg=Dg
+    ensures
+        r.wf(),
+        r.ord() == digraph.ord(),
+        forall|a: int, b: int| #![trigger r.has(a, b)] is_id(a) && is_id(b) ==> r.has(a, b) == digraph.has(a, b),
+        dg_valid(digraph),
+    @loop 1
+    invariant
+        it1.iter.obeys_prophetic_iter_laws(),
+        it1.iter.decrease() is Some,
+        arcs_of(digraph, it1.seq()),
+        h.wf(),
+        h.ord() == order,
+        order == digraph.ord(),
+        forall|i: int| 0 <= i < it1.index() ==> (#[trigger] it1.seq()[i]).0 < order && it1.seq()[i].1 < order && it1.seq()[i].0 != it1.seq()[i].1,
+        forall|i: int| 0 <= i < it1.index() ==> h.has((#[trigger] it1.seq()[i]).0 as int, it1.seq()[i].1 as int),
+        forall|a: int, b: int| #![trigger h.has(a, b)] h.has(a, b) ==> exists|i: int| 0 <= i < it1.index() && it1.seq()[i] == (a as usize, b as usize),
+    @panic 1
+        assert(!dg_valid(digraph));
+    @panic 2
+        assert(!dg_valid(digraph)) by { assert((u, v) == it1.seq()[it1.index()]); assert(digraph.has(u as int, v as int)); }
+    @panic 3
+        assert(!dg_valid(digraph)) by { assert((u, v) == it1.seq()[it1.index()]); assert(digraph.has(u as int, v as int)); }
+    @*/
+
+    // the same function as in units/edge_list_core.rs, here with the full C16 clause (order = largest id + 1, or 1 for the
+    // empty input, which this representation documents as allowed)
+    /*@fn impl=EdgeList trait=From implhas='impl<I> From<I>' name=from rename=from_arcs subst=I=>Vec<(usize,usize)> drop=I dropwhere=I
+    ensures
+        r.wf(),
+        arcs_input_ok(iter@, r.ord()),
+        iter@.len() == 0 ==> r.ord() == 1,
+        forall|a: int, b: int| #![trigger r.has(a, b)] r.has(a, b) == (is_id(a) && is_id(b) && iter@.contains((a as usize, b as usize))),
+    @loop 1
+    invariant
+        it1.seq() == iter@,
+        forall|i: int| 0 <= i < it1.index() ==> (#[trigger] it1.seq()[i]).0 <= order && it1.seq()[i].1 <= order && it1.seq()[i].0 != it1.seq()[i].1,
+        it1.index() == 0 ==> order == 0,
+        it1.index() > 0 ==> exists|i: int| 0 <= i < it1.index() && ((#[trigger] it1.seq()[i]).0 == order || it1.seq()[i].1 == order),
+        forall|p: (usize, usize)| #[trigger] arcs@.contains(p) == exists|i: int| 0 <= i < it1.index() && it1.seq()[i] == p,
+    @panic 1
+        assert(has_self_loop(iter@)) by { assert(iter@[it1.index()] == (u, v)); }
+    @*/
+}
+
+
+proof fn lemma_round_trip_edge(e0: EdgeList, d0: Dg, d1: Dg, e2: EdgeList)
+    requires
+        e0.wf(),
+        dg_stands_for(d0, e0.ord(), |a: int, b: int| e0.has(a, b)),
+        dg_same(d1, d0),
+        // postcondition of EdgeList::from_dg(d1)
+        e2.wf(),
+        e2.ord() == d1.ord(),
+        forall|a: int, b: int| #![trigger e2.has(a, b)] is_id(a) && is_id(b) ==> e2.has(a, b) == d1.has(a, b),
+    ensures
+        e2.ord() == e0.ord(),
+        forall|a: int, b: int| e2.has(a, b) == e0.has(a, b),
+        // identity on the representation itself
+        e2.order == e0.order,
+        e2.arcs@ == e0.arcs@,
+{
+    assert forall|a: int, b: int| e2.has(a, b) == e0.has(a, b) by {
+        if is_id(a) && is_id(b) {
+            assert(d1.has(a, b) == d0.has(a, b));
+            assert(d0.has(a, b) == (|a: int, b: int| e0.has(a, b))(a, b));
+        }
+    }
+    lemma_edge_canonical(e2, e0);
+}
+
+} // mod edge_side
